@@ -166,17 +166,18 @@ var Zero = FVal{KNumber, "0", 0}
 
 // Obj is one stored object.
 type Obj struct {
-	Str    bool   // string object
-	Text   string // string value, or the predicted geometry text ("" when opaque)
-	Lit    string // geometry literal key (pins opaque canonical text)
-	GType  string // GeoJSON type name when known ("Point", "Polygon", ...)
-	Pt     []string // for points: formatted x, y[, z]
-	JDoc   []KV   // for strings built by JSET: ordered members
-	IsJDoc bool
-	Fields map[string]FVal
-	HasEx  bool
-	ExSec  float64 // the seconds given
-	Stamp  int64   // logical time of the command that set the deadline
+	Str        bool     // string object
+	Text       string   // string value, or the predicted geometry text ("" when opaque)
+	Lit        string   // geometry literal key (pins opaque canonical text)
+	GType      string   // GeoJSON type name when known ("Point", "Polygon", ...)
+	Pt         []string // for points: formatted x, y[, z]
+	BoundsArgs []string // for BOUNDS-born objects: minlat minlon maxlat maxlon as given
+	JDoc       []KV     // for strings built by JSET: ordered members
+	IsJDoc     bool
+	Fields     map[string]FVal
+	HasEx      bool
+	ExSec      float64 // the seconds given
+	Stamp      int64   // logical time of the command that set the deadline
 }
 
 // KV is a JSON member with its raw value text.
@@ -233,10 +234,10 @@ func (m *Model) Clone() *Model {
 
 // Markers inside expected replies.
 const (
-	MarkGeo = "\x00G:"   // bulk: opaque geometry text for literal key
-	MarkTTL = "\x00TTL:" // int: remaining seconds of a deadline given as seconds
+	MarkGeo    = "\x00G:"   // bulk: opaque geometry text for literal key
+	MarkTTL    = "\x00TTL:" // int: remaining seconds of a deadline given as seconds
 	MarkAnyErr = "\x00ANYERR"
-	MarkAny = "\x00ANY"
+	MarkAny    = "\x00ANY"
 )
 
 func errReply(s string) respc.Reply { return respc.Err("ERR " + s) }
@@ -425,7 +426,7 @@ func parseGeo(args []string, i int) (*Obj, int, *respc.Reply) {
 		}
 		minlat, minlon, maxlat, maxlon := v[0], v[1], v[2], v[3]
 		txt := `{"type":"Polygon","coordinates":[[[` + minlon + `,` + minlat + `],[` + maxlon + `,` + minlat + `],[` + maxlon + `,` + maxlat + `],[` + minlon + `,` + maxlat + `],[` + minlon + `,` + minlat + `]]]}`
-		return &Obj{Text: txt, GType: "Polygon"}, i + 5, nil
+		return &Obj{Text: txt, GType: "Polygon", BoundsArgs: append([]string(nil), args[i+1:i+5]...)}, i + 5, nil
 	case "hash":
 		if i+1 >= len(args) {
 			return bad(wrongArgs("set"))
